@@ -570,6 +570,11 @@ func (g *genState) genDoc(forUpdate bool, wrongOK bool) Val {
 	if r.IntN(25) == 0 {
 		d.M = append(d.M, KV{"big", vStr(strings.Repeat("x", 100+r.IntN(400)))})
 	}
+	if g.profile == "c06" && r.IntN(5) == 0 {
+		// a top-level key whose NAME is a dotted path that is also a sort / select path: it is just another key,
+		// the path still means the nested value
+		d.M = append(d.M, KV{"nested.n", vInt(int64(r.IntN(2000) - 1000))})
+	}
 	if forUpdate {
 		// delete markers: indexed and extra fields, and never-present ones
 		if r.IntN(2) == 0 {
@@ -813,9 +818,17 @@ func (g *genState) genBatch(step int) batchSpec {
 			}
 			set := Val{K: kMap}
 			setPath(&set, ix.path, vVec(g.genVec(ix.dim)))
-			b.points = append(keep,
-				pointSpec{id: id, doc: Val{K: kMap, M: []KV{{top, vStr("_delete")}}}},
-				pointSpec{id: id, doc: set})
+			if g.r.IntN(2) == 0 {
+				b.points = append(keep,
+					pointSpec{id: id, doc: Val{K: kMap, M: []KV{{top, vStr("_delete")}}}},
+					pointSpec{id: id, doc: set})
+			} else {
+				// the other way round: a put and then a delete of one node id before the next flush (the point ends
+				// without the vector, in the running instance and in the file)
+				b.points = append(keep,
+					pointSpec{id: id, doc: set},
+					pointSpec{id: id, doc: Val{K: kMap, M: []KV{{top, vStr("_delete")}}}})
+			}
 		}
 		// graph profiles: one request that removes and re-adds (or sets and then removes) the vector field of
 		// the same point. The second shape is the known finding F14 (DESIGN 9.3): the step is tagged.
